@@ -16,9 +16,6 @@ func (k Keeper) BeginBlocker(ctx context.Context) error {
 	if err := k.DistributeReward(sdkctx); err != nil {
 		return err
 	}
-	if err := k.DequeueMatureUnlocks(sdkctx); err != nil {
-		return err
-	}
 	if err := k.HandleVoteInfos(sdkctx); err != nil {
 		return err
 	}
@@ -30,6 +27,12 @@ func (k Keeper) BeginBlocker(ctx context.Context) error {
 
 func (k Keeper) EndBlocker(ctx context.Context) ([]abci.ValidatorUpdate, error) {
 	sdkctx := sdktypes.UnwrapSDKContext(ctx)
+
+	// the matured unlocks are queued at the end of the block, so the proposer of the next block
+	// and the execution of that block have the same view of the queue
+	if err := k.DequeueMatureUnlocks(sdkctx); err != nil {
+		return nil, err
+	}
 
 	lastSet := make(map[string]uint64)
 	{
